@@ -32,7 +32,7 @@ def bytes_accumulators(fnode):
             cands.setdefault(st.targets[0].id, []).append(st)
     for name, inits in list(cands.items()):
         ok = True
-        appends, joins = [], []
+        appends, joins, lens = [], [], []
         parents = {}
         for n in ast.walk(f):
             for c in ast.iter_child_nodes(n):
@@ -54,6 +54,10 @@ def bytes_accumulators(fnode):
                         isinstance(p.func.value, ast.Constant) and p.func.value.value == b"" and p.args == [n]:
                     joins.append(p)
                     continue
+                # len(x): the number of pieces collected so far - becomes an explicit counter
+                if isinstance(p, ast.Call) and isinstance(p.func, ast.Name) and p.func.id == "len" and p.args == [n] and not p.keywords:
+                    lens.append(p)
+                    continue
                 ok = False
         if not ok or not appends or not joins:
             continue
@@ -65,6 +69,25 @@ def bytes_accumulators(fnode):
             _replace(f, ex, new)
         for j in joins:
             _replace(f, j, ast.copy_location(ast.Name(id=name, ctx=ast.Load()), j))
+        if lens:
+            cnt = name + "__n"
+            for ln in lens:
+                _replace(f, ln, ast.copy_location(ast.Name(id=cnt, ctx=ast.Load()), ln))
+            for holder in ast.walk(f):
+                for field in ("body", "orelse", "finalbody"):
+                    lst = getattr(holder, field, None)
+                    if not (isinstance(lst, list) and lst and isinstance(lst[0], ast.stmt)):
+                        continue
+                    i = 0
+                    while i < len(lst):
+                        y = lst[i]
+                        if isinstance(y, ast.Assign) and y in inits:
+                            lst.insert(i + 1, ast.copy_location(ast.Assign(targets=[ast.Name(id=cnt, ctx=ast.Store())], value=ast.Constant(value=0)), y))
+                            i += 1
+                        elif isinstance(y, ast.AugAssign) and isinstance(y.target, ast.Name) and y.target.id == name:
+                            lst.insert(i + 1, ast.copy_location(ast.AugAssign(target=ast.Name(id=cnt, ctx=ast.Store()), op=ast.Add(), value=ast.Constant(value=1)), y))
+                            i += 1
+                        i += 1
     ast.fix_missing_locations(f)
     return f
 
@@ -198,6 +221,15 @@ def summary(fnode, loop_pred=None):
     return s
 
 
+def _walk_terms(t):
+    yield t
+    if isinstance(t, tuple):
+        for x in t:
+            if isinstance(x, tuple):
+                for y in _walk_terms(x):
+                    yield y
+
+
 def times(s, count_pat_check):
     """How many times does the loop run?  Returns ('count', term) for `while n > 0: ...; n -= 1` (n's initial value) and
     `for _ in range(term)`, ('until', cmp term) for another while condition, or None."""
@@ -216,6 +248,11 @@ def times(s, count_pat_check):
                         (r, (op == "Lt" and l == ("const", 0)) or (op == "LtE" and l == ("const", 1)))):
             if ok and var[0] == "var" and s.step.get(var[1]) in (("op", "Sub", var, ("const", 1)), ("cat", (var, ("const", -1)))):
                 return ("count", s.init.get(var[1]), var[1])
+        # c < N / N > c with c = 0 ... c += 1 and N not changed by the loop: N iterations
+        for var, bound, ok in ((l, r, op == "Lt"), (r, l, op == "Gt")):
+            if ok and var[0] == "var" and s.init.get(var[1]) == ("const", 0) and s.step.get(var[1]) in (("cat", (var, ("const", 1))), ("cat", (("const", 1), var))) and \
+                    not any(isinstance(x, tuple) and x and x[0] == "var" and x[1] in s.step for x in _walk_terms(bound)):
+                return ("count", bound, var[1])
         return ("until", c, None)
     if c[0] == "var" and s.step.get(c[1]) == ("op", "Sub", c, ("const", 1)):
         return ("count", s.init.get(c[1]), c[1])
@@ -268,3 +305,70 @@ def counter_of(s):
         if st == ("cat", (("var", v), ("const", 1))) and v in s.init:
             return v, s.init[v], ("const", 1)
     return None
+
+
+def reroll(fnode, min_runs=2):
+    """Clone of fnode in which a run of k >= min_runs consecutive statements that are identical except for one integer constant that
+    counts 0, 1, .., k-1 (a loop written out: `round(key_list[0])`, `round(key_list[1])`, `round(key_list[2])`) is replaced by
+    `for i__r in range(k): <statement with i__r>`.  Returns the clone, or None when there is no such run."""
+    f = clone(fnode)
+
+    class Mark(ast.NodeTransformer):
+        def __init__(self):
+            self.consts = []
+
+        def visit_Constant(self, node):
+            if isinstance(node.value, int) and not isinstance(node.value, bool):
+                self.consts.append(node)
+            return node
+
+    def skeleton(st):
+        m = Mark()
+        c = clone(st)
+        m.visit(c)
+        vals = [x.value for x in m.consts]
+        for x in m.consts:
+            x.value = 0
+        return ast.dump(c), vals, c, m.consts
+    done = False
+    for holder in ast.walk(f):
+        for field in ("body", "orelse", "finalbody"):
+            lst = getattr(holder, field, None)
+            if not (isinstance(lst, list) and lst and isinstance(lst[0], ast.stmt)):
+                continue
+            i = 0
+            while i < len(lst):
+                sk0, v0, _c0, _m0 = skeleton(lst[i])
+                j = i + 1
+                runs = [v0]
+                while j < len(lst):
+                    skj, vj, _cj, _mj = skeleton(lst[j])
+                    if skj != sk0 or len(vj) != len(v0):
+                        break
+                    runs.append(vj)
+                    j += 1
+                k = len(runs)
+                if k >= min_runs and v0:
+                    # exactly the positions that vary must count 0..k-1; all other constants are equal throughout
+                    varying = [p for p in range(len(v0)) if len({r[p] for r in runs}) > 1]
+                    if varying and all([r[p] for r in runs] == list(range(k)) for p in varying):
+                        _sk, _v, body, marks = skeleton(lst[i])
+                        for p_, x in enumerate(marks):
+                            x.value = v0[p_]
+
+                        class Sub(ast.NodeTransformer):
+                            def visit_Constant(self, node):
+                                for p in varying:
+                                    if node is marks[p]:
+                                        return ast.copy_location(ast.Name(id="i__r", ctx=ast.Load()), node)
+                                return node
+                        body = Sub().visit(body)
+                        loop = ast.For(target=ast.Name(id="i__r", ctx=ast.Store()), iter=ast.Call(func=ast.Name(id="range", ctx=ast.Load()), args=[ast.Constant(value=k)], keywords=[]),
+                                       body=[body], orelse=[])
+                        lst[i:j] = [ast.copy_location(loop, lst[i])]
+                        done = True
+                i += 1
+    if not done:
+        return None
+    ast.fix_missing_locations(f)
+    return f
